@@ -35,6 +35,12 @@ pub fn oti_valid(f: u128, t: u128, z: u128, al: u128) -> bool {
     f <= 942574504275 && t % al == 0 && cdiv(cdiv(f, t), z) <= 56403
 }
 
+/// the same predicate without division: ceil(ceil(F/T)/Z) <= 56403  <=>  F <= 56403*Z*T  (T, Z > 0);
+/// kref checks the two forms against each other and against the Coq Spec
+pub fn oti_valid_mul(f: u128, t: u128, z: u128, al: u128) -> bool {
+    f <= 942574504275 && t % al == 0 && f <= 56403 * z * t
+}
+
 /// Spec.Rand.Rand
 pub fn rand(y: u128, i: u128, m: u128) -> u128 {
     let x0 = (y + i) % 256;
